@@ -1,5 +1,6 @@
 import AdfObdd.Drv.Bdd
 import AdfObdd.Drv.Adf
+import AdfObdd.Drv.Parser
 /-! Model driver: one request per line in, the request and the model's answers out.
     `= …` is the algorithmic model's answer, `~ …` the executable specification's. Lines
     starting with `=`, `~` (the implementation's answers) and `#` are skipped. -/
@@ -23,6 +24,9 @@ def step (d : DS) (l : String) : List String × DS :=
   | none =>
   match adfStep d.adf l ws with
   | some (out, a) => (out, { d with adf := a })
+  | none =>
+  match parserStep l ws with
+  | some out => (out, d)
   | none => ([l, "= unknown-request"], d)
 
 partial def loop (h : IO.FS.Stream) (out : IO.FS.Stream) (d : DS) : IO Unit := do
